@@ -200,7 +200,7 @@ def run_common(ctx, which):
         fails, _ = tracecheck.validate("Trace_Helmert", "Trace_Helmert.cfg", traces, ctx, "Trace_Helmert", min_chunk=40,
                                        timeout=3000, extra_files=[dumpfile])
         report(traces, fails, ctx)
-        ctx.extra["binding_selftest"] = selftest(drv, dumpfile, which)
+        ctx.selftest(selftest, drv, dumpfile, which)
     finally:
         shutil.rmtree(d, ignore_errors=True)
     for t in traces:
